@@ -101,6 +101,10 @@ def handle (op : String) (args : List String) : Option String :=
           let outs ← banditOps (Bandit.Agent.init n alpha eps q0) [] ops
           pure (" ; ".intercalate outs)
       | _ => none
+  | "bandit.rewards" => do
+      -- boot loss, then the minimum loss of every agent-chosen batch: the rewards of the run (scheduler best -> environment reward)
+      let (boot, losses) ← run (do let b ← flt; let ls ← list flt; pure (b, ls)) args
+      pure (fl (Bandit.runRewards 0.0 boot losses))
   | "halton.seq" => do
       let (k, s, bases) ← run (do let k ← nat; let s ← nat; let b ← list nat; pure (k, s, b)) args
       if bases.any (· < 2) then none else
